@@ -469,6 +469,11 @@ def check(prop, tier, runs=None, workers=None, seed=None):
             unknown[0]["clause"], unknown[0]["detail"][:1000]))
         nviol += 1
         rc = max(rc, 1)
+    if nviol > 0:
+        # a confirmed, replayable violation decides the outcome; a further
+        # class that did not pass the replay gate (a build with undefined
+        # behaviour need not repeat itself) was logged above
+        rc = 1
     for k in known.get("findings", []):
         if k.get("property") == prop:
             print("KNOWN-FINDING: property=%s %s" % (prop, k.get("what", "")),
